@@ -47,7 +47,7 @@ UNIT = dict(
         "HedgeConfigBuilder::max_hedged_attempts": setter("hgconfig", ("sub", "R10-max", r"\bn\.max\(1\)", "vx_max(n, 1)", 1)),
         "HedgeConfigBuilder::delay": setter("hgconfig"),
         "HedgeConfigBuilder::no_delay": setter("hgconfig"),
-        "HedgeConfigBuilder::delay_fn": setter("hgconfig", ("wrapcalls", "R6-closure-wrap", r"Arc::new", "vx_wrap()", 1)),
+        "HedgeConfigBuilder::delay_fn": setter("hgconfig", ("wrapcalls", "R6-closure-wrap", r"Arc::new", "vx_wrap_of({args})", 1)),
         "HedgeConfigBuilder::on_event": setter("hgconfig"),
         "HedgeConfigBuilder::build": dict(file="hgconfig"),
     },
